@@ -132,11 +132,16 @@ class DelayModel:
         if self.dist == "normal":
             s = default_rng(self.seed).normal(mu, sigma, n)
         elif self.dist == "poisson":
-            s = default_rng().poisson(mu, int(runtime / self.degree))
+            s = default_rng(self.seed).poisson(
+                mu, int(runtime / self.degree.value)
+            )
         else:
             s = default_rng().uniform()
 
         var = s[s > mu]
+        if len(var) == 0:
+            # Nothing drawn above the mean (e.g. runtime of 0): no delay
+            return runtime
         rand_var = var[int(len(var)/2)]
         return rand_var
 
